@@ -547,6 +547,14 @@ def execute(trace, ctx=None):
     fns0, globs0 = state_snapshot()
 
     ops_list = [dict(o) for o in trace["ops"]]
+    must = (ctx or {}).get("must_run") or []
+    if must and trace.get("dynamic", True):
+        k0 = must[int(trace.get("seed", 0)) % len(must)]
+        n0, _, s0 = k0.partition("#")
+        o0 = {"op": n0, "probe": True}
+        if s0:
+            o0["rng_seed"] = int(s0)
+        ops_list.insert(0, o0)
     dynamic = trace.get("dynamic", True)
     triggers = 0
     lib_state = {}
@@ -668,6 +676,7 @@ def execute(trace, ctx=None):
                 where.append("%s:%d" % tracer.where)
         stats["ops"] += 1
         stats["ops_raise" if out[0] == "raise" else ("ops_fault" if out[0] == "fault" else "ops_value")] += 1
+        bystander = _bystander_report(out)
         if spec.pool:
             stats["pooled_ops"] += 1
         for prev in done:
@@ -685,7 +694,12 @@ def execute(trace, ctx=None):
 
         # oracle 1: arguments untouched
         m = heap.mutated()
-        if m:
+        if bystander and not fired:
+            # the template itself holds an object of the simulated caller that was NOT passed to the call (another open figure)
+            # and reports that the call changed it
+            violation = {"oracle": "bystander_modified", "op": name, "step": step,
+                         "detail": "%s changed an object of the caller that it was not given: %s" % (name, bystander)}
+        elif m:
             oid = "arg_mutated_on_interrupt" if (fired and fault["kind"] == "async_interrupt") else "arg_mutated"
             violation = {"oracle": oid, "op": name, "step": step,
                          "detail": "%s modified the caller's object %r: %s" % (name, m[0], m[1])}
@@ -781,6 +795,16 @@ def execute(trace, ctx=None):
         "executed_ops": ops_list[:step + 1] if violation else ops_list,
         "sched_decisions": CTL.decisions[:200],
     }
+
+
+def _bystander_report(out):
+    """Templates of the 'bystander' kind return ['__bystander__', <'' or what changed>, ...]: they hold an object of the simulated caller
+    that is NOT passed to the call under test (another open figure) and compare its fingerprint before and after the call themselves."""
+    if out and out[0] == "value":
+        v = out[1]
+        if isinstance(v, list) and len(v) >= 2 and v[0] == "__bystander__" and isinstance(v[1], str) and v[1]:
+            return v[1][:300]
+    return None
 
 
 def pick_probes(op, spec, changed, table, ops):
@@ -1055,7 +1079,11 @@ def prepare(farm, batch_seed, tier, cfg, harness_errors):
         per[f][0] += 1
     PREP_INFO["catalogue_line_reach"] = {"function_body_lines_executed": len(covered & ex), "function_body_lines_total": len(ex),
                                          "per_file": {f: "%d/%d" % tuple(v) for f, v in sorted(per.items())}}
-    ctx = {"pristine": table, "mutation_targets": targets}
+    # templates whose PRISTINE execution already shows a defect (two pristine executions disagree; a bystander object changed): they are
+    # put in front of the runs in rotation, so that the violation is reported by the first runs of the batch and not left to sampling
+    must = sorted(k for k, v in table.items() if "@" not in k and (v.get("unstable") or _bystander_report(v.get("outcome"))))
+    PREP_INFO["templates_with_a_defect_in_their_pristine_execution"] = must[:20]
+    ctx = {"pristine": table, "mutation_targets": targets, "must_run": must[:50]}
     if cfg.get("cold_check"):
         PREP_INFO["batch_seed"] = batch_seed
         ncold = cold_check({k: v for k, v in table.items() if "@" not in k}, harness_errors, sample=cfg.get("cold_sample", 800))
